@@ -21,17 +21,16 @@ def batch(batch_size):
         An observable emiting the source items batched in groups of batch_size.
     '''
     def _batch(acc, i):
-        if acc[1] is True:
-            return ([i], False)
-        else:
-            b = acc[0]
-            b.append(i)
-            if len(b) == batch_size:            
-                return (b, True)
-        
-            return (b, False)
-    
-    def _terminate(acc): return (acc[0], True)
+        # a full batch has already been emitted: start a new one
+        b = [] if acc[1] is True else acc[0]
+        b.append(i)
+        return (b, len(b) == batch_size)
+
+    def _terminate(acc):
+        # only pending items form the final, partial batch
+        if acc[1] is True or len(acc[0]) == 0:
+            return ([], False)
+        return (acc[0], True)
 
     return rx.pipe(
         rs.ops.scan(_batch, seed=([], False), terminator=_terminate),
